@@ -228,10 +228,16 @@ func escByte(c byte, e *textEnc) []byte {
 	case 10:
 		return []byte(`\n`)
 	case 12:
+		if e.ch(e.o.Escapes, 1, 2) {
+			return []byte{12} // a raw form feed is allowed inside quoted text
+		}
 		return []byte(`\f`)
 	case 13:
 		return []byte(`\r`)
 	case 11:
+		if e.ch(e.o.Escapes, 1, 2) {
+			return []byte{11} // so is a raw vertical tab
+		}
 		return []byte(`\v`)
 	}
 	if e.ch(true, 1, 2) {
